@@ -33,15 +33,47 @@ DIRS = ["up", "down", "left", "right"]
 
 
 # ---------------------------------------------------- implementation side ---
+def _fp(x, depth=0, seen=None):
+    """structural fingerprint of a value (dicts, lists, sets, tuples, plain
+    scalars, instances via their __dict__; callables by qualified name)"""
+    import types
+    seen = seen if seen is not None else set()
+    if isinstance(x, (int, float, str, bool, bytes, type(None))):
+        return repr(x)
+    if id(x) in seen or depth > 6:
+        return "<rec>"
+    seen = seen | {id(x)}
+    if isinstance(x, dict):
+        return "{" + ",".join(sorted("%s:%s" % (_fp(k, depth + 1, seen), _fp(v, depth + 1, seen)) for k, v in x.items())) + "}"
+    if isinstance(x, (list, tuple)):
+        return "[" + ",".join(_fp(v, depth + 1, seen) for v in x) + "]"
+    if isinstance(x, (set, frozenset)):
+        return "{" + ",".join(sorted(_fp(v, depth + 1, seen) for v in x)) + "}"
+    if isinstance(x, (types.FunctionType, types.BuiltinFunctionType, types.MethodType, type, types.ModuleType)):
+        return "<%s>" % getattr(x, "__qualname__", getattr(x, "__name__", "callable"))
+    d = getattr(x, "__dict__", None)
+    if d is not None:
+        return "<%s %s>" % (type(x).__name__, _fp(d, depth + 1, seen))
+    return "<%s>" % type(x).__name__
+
+
 def _snapshot():
-    from labella import timeline
-    d = timeline.DEFAULT_OPTIONS
-    sc = d["scale"]
-    return json.dumps({
-        "keys": sorted(d.keys()),
-        "plain": {k: repr(v) for k, v in d.items() if k not in ("scale", "timeFn", "textFn")},
-        "scale_domain": repr(sc.domain()), "scale_range": repr(sc.range()),
-    }, sort_keys=True)
+    """fingerprint of ALL module-level state of the labella package: the model's
+    invariant is that no operation writes a module-level object"""
+    import sys
+    import labella.timeline  # noqa
+    out = {}
+    for name, mod in sorted(sys.modules.items()):
+        if name == "labella" or name.startswith("labella."):
+            for k, v in sorted(vars(mod).items()):
+                if k.startswith("__"):
+                    continue
+                out["%s.%s" % (name, k)] = _fp(v)
+    return out
+
+
+def _snap_diff(a, b):
+    return sorted(k for k in set(a) | set(b) if a.get(k) != b.get(k))
 
 
 def run_history(py):
@@ -61,7 +93,7 @@ def run_history(py):
             insts[iid] = T.mk_timeline(kind, data, T.mk_options(copy.deepcopy(pool["opts"][oi]), scale))
         else:
             docs.append(T.export_text(insts[op[1]]))
-    return {"docs": docs, "defaults_changed": _snapshot() != snap0}
+    return {"docs": docs, "defaults_changed": _snap_diff(snap0, _snapshot())}
 
 
 def impl(py):
@@ -104,7 +136,9 @@ def _rand_opts(rng):
     o = {"direction": rng.choice(DIRS)}
     if rng.random() < 0.5:
         o["labella"] = rng.choice([{}, {"maxPos": 300}, {"algorithm": "simple", "maxPos": 200}, {"nodeSpacing": 5},
-                                   {"algorithm": "none"}, {"minPos": None}])
+                                   {"algorithm": "none"}, {"minPos": None}, {"lineSpacing": 9, "maxPos": 150},
+                                   {"lineSpacing": 0}, {"maxPos": 120, "density": 0.5, "stubWidth": 4},
+                                   {"maxPos": 100, "nodeSpacing": 0, "lineSpacing": 14, "algorithm": "simple"}])
     if rng.random() < 0.3:
         o["initialWidth"] = rng.choice([300, 500, 804])
         o["initialHeight"] = rng.choice([250, 400])
@@ -276,7 +310,7 @@ def oracle(case, io):
     if isinstance(io, dict) and "exc" in io:
         return "raised %s: %s" % (io["exc"], io.get("msg", ""))
     if io.get("defaults_changed"):
-        return "the history mutated labella.timeline.DEFAULT_OPTIONS (module-level shared state)"
+        return "the history mutated module-level state of the labella package: %s" % ", ".join(io["defaults_changed"][:5])
     py = case["py"]
     cur = {}
     k = 0
